@@ -585,7 +585,7 @@ impl Property for C07 {
     const ID: &'static str = "C07";
     type Case = Case;
     fn rule() -> String {
-        "cases: (a) streams of 1-4 generated documents (anchors, aliases to scalars and containers, aliases inside anchored containers, merge keys, nesting, all scalar styles, block/flow, CRLF) and all small documents from a fixed enumeration; for each, an independent counter over the raw saphyr-parser events plus a replay model computes the usage U; checked: the BudgetReport delivered to the callback == U, check_yaml_budget == raw-only count, for every counter c with U_c > 0 the limit U_c is accepted and U_c-1 is rejected with the matching BudgetBreach located at the event where the counter reaches its final value (raw events only), budgets >= U component-wise are never rejected, the alias/anchor ratio heuristic is exact around its boundary; (b) per-document enforcement: for every prefix of length <= 3 (thorough 4) over 7 prefix kinds (valid, with anchors, type error early/late with deep nesting, empty, null, many anchors) and 4 final documents, under a budget equal to the final document's own usage (and with each limit lowered by one), the streaming iterator's verdict for the final document equals its verdict when read alone; the same with a single counter limited to the final document's own usage (earlier documents exceed just that counter), and for the alias/anchor ratio at its boundary, with and without a document that follows (the stream reports a ratio breach iff the document alone does). A breach met while an alias is replayed must still be Error::Budget. Non-trivial: a document with a replayed alias and depth >= 2 checked at exact boundaries / a non-empty prefix.".into()
+        "cases: (a) streams of 1-4 generated documents (anchors, aliases to scalars and containers, aliases inside anchored containers, merge keys, nesting, all scalar styles, block/flow, CRLF) and all small documents from a fixed enumeration (incl. every position of an alias - key, value, both - before a `<<` key or a plain `<<` value of the same mapping, block and flow); for each, an independent counter over the raw saphyr-parser events plus a replay model computes the usage U; checked: the BudgetReport delivered to the callback == U, check_yaml_budget == raw-only count, for every counter c with U_c > 0 the limit U_c is accepted and U_c-1 is rejected with the matching BudgetBreach located at the event where the counter reaches its final value (raw events only), budgets >= U component-wise are never rejected, the alias/anchor ratio heuristic is exact around its boundary; (b) per-document enforcement: for every prefix of length <= 3 (thorough 4) over 7 prefix kinds (valid, with anchors, type error early/late with deep nesting, empty, null, many anchors) and 4 final documents, under a budget equal to the final document's own usage (and with each limit lowered by one), the streaming iterator's verdict for the final document equals its verdict when read alone; the same with a single counter limited to the final document's own usage (earlier documents exceed just that counter), and for the alias/anchor ratio at its boundary, with and without a document that follows (the stream reports a ratio breach iff the document alone does). A breach met while an alias is replayed must still be Error::Budget. Non-trivial: a document with a replayed alias and depth >= 2 checked at exact boundaries / a non-empty prefix.".into()
     }
     fn assumptions() -> Vec<String> {
         vec![
